@@ -279,6 +279,12 @@ def p5(prog, rep):
         rep.check("prepare_proposal_tx_execution(" in a[0] and
                   "get_cached_block_deposits(self.state)" in a[1], "P5", rep.nth("prepare-operands"),
                   f"prepare derives commitments from {[x[:50] for x in a]}", g.where())
+    # the generator itself: both trees are derived from the rollup map sorted by key *after*
+    # the deposits were merged in (rule shared with C07-R2 / C05-D2); otherwise the proposal's
+    # commitments differ from what SequencerBlockBuilder::try_build re-derives from sorted data
+    # and every honest node rejects the honest proposal
+    import c07
+    c07.sorted_before_tree(prog, rep, "P5", (gen,))
     # the block that is built, stored and served after execution re-derives both roots from its
     # own inputs (SequencerBlockBuilder::try_build) and must reproduce the proposal's
     # commitments: it has to be fed the rollup data of *every* executed transaction, in order,
